@@ -119,22 +119,27 @@ func (s *Stream) logDroppedDataWithThrottling() {
 
 // callSinksAsync asynchronously calls all sink functions
 func (s *Stream) callSinksAsync(results []map[string]any) {
-	// Safely access sinks slice using read lock
+	// Snapshot the sink lists and release the lock before running anything: sync
+	// sinks (and async sinks executed inline when the pool is full) run on this
+	// goroutine, and a sink that calls AddSink/AddSyncSink, or that blocks, must
+	// not deadlock or stall registration by holding sinksMux.
 	s.sinksMux.RLock()
-	defer s.sinksMux.RUnlock()
-
 	if len(s.sinks) == 0 && len(s.syncSinks) == 0 {
+		s.sinksMux.RUnlock()
 		return
 	}
+	sinks := make([]func([]map[string]any), len(s.sinks))
+	copy(sinks, s.sinks)
+	syncSinks := make([]func([]map[string]any), len(s.syncSinks))
+	copy(syncSinks, s.syncSinks)
+	s.sinksMux.RUnlock()
 
-	// Directly iterate sinks slice to avoid copy overhead
-	// Since submitSinkTask is async, won't hold lock for long time
-	for _, sink := range s.sinks {
+	for _, sink := range sinks {
 		s.submitSinkTask(sink, results)
 	}
 
 	// Execute synchronous sinks (blocking, sequential)
-	for _, sink := range s.syncSinks {
+	for _, sink := range syncSinks {
 		// Recover panic for each sync sink to prevent crashing the stream
 		func() {
 			defer func() {
